@@ -186,6 +186,13 @@ func (ms msgServer) EditOracleParams(goCtx context.Context, msg *types.MsgEditOr
 		return nil, sudotypes.ErrUnauthorized
 	}
 
+	// "params" is an optional field on the wire and ValidateBasic does not ask
+	// for it: without it there is nothing to merge (mergeOracleParams would
+	// dereference nil).
+	if msg.Params == nil {
+		return nil, fmt.Errorf("invalid request: params must be provided")
+	}
+
 	params, err := ms.Keeper.Params.Get(ctx)
 	if err != nil {
 		return nil, fmt.Errorf("get oracle params error: %s", err.Error())
